@@ -37,7 +37,7 @@ MANIFEST = dict(
          "outcome class — including `ub` kinds — must equal the Model's on every input; any `ub` of the real code is "
          "reported as a violation with the input as replay.",
     note="T (partial): zlib's own memory safety and termination are assumed through the call contract; inputs of the "
-         "tie are at most 64 KiB; allocation failure is not modelled.",
+         "tie are at most 64 KiB (plus the 786 KB beat grids on the 32768-marker cap); allocation failure is not modelled.",
     technique="Lean 4 theorems over a cursor-monad Model with explicit ub outcomes + oracle-generic loop termination proof "
               "+ sanitizer differential run",
     ref="6/C05")
@@ -50,6 +50,10 @@ def run_both(lines, watchdog=10):
     hout = [o for (outs, _) in hres for o in outs]
     mout = [o for outs in runner.run_model(scripts) for o in outs]
     return hout, mout
+
+
+def _i64be(v):
+    return struct.pack(">q", v)
 
 
 def frame(payload, z):
@@ -137,6 +141,39 @@ def gen_inputs(rng, tier, hist):
             addz("z_trailing", "unz", fb + bytes(rng.getrandbits(8) for _ in range(rng.randrange(1, 20))))
             for _ in range(10 if tier == "quick" else 100):
                 addz("z_mutation", "unz", fb[:4] + cd.mutate(fb[4:], rng))
+    # (f) the INPUT chunking of zlib_uncompress (`(ptr + chunk_size) < end ? chunk_size : end - ptr`): framed blobs whose
+    # compressed part is exactly j*16384-1, j*16384, j*16384+1 bytes; the same streams cut at exactly j*16384 bytes
+    # (input exhausted on a chunk boundary before the end of the stream); trailing bytes after a stream that ends on
+    # the boundary.
+    noise = rng.randbytes(4 * cd.CHUNK + 64)
+    for j in ((1, 2) if tier == "quick" else (1, 2, 3, 4)):
+        hit = {}
+        for n in range(j * cd.CHUNK - 80, j * cd.CHUNK + 2):
+            z = zlib.compress(noise[:n], 6)
+            d = len(z) - j * cd.CHUNK
+            if d in (-1, 0, 1) and d not in hit:
+                hit[d] = (noise[:n], z)
+        for d, (p, z) in sorted(hit.items()):
+            fb = frame(p, z)
+            addz("z_chunk_boundary", "unz", fb)
+            key = "z_chunk_boundary:compressed_len=%d*16384%+d" % (j, d)
+            hist[key] = hist.get(key, 0) + 1
+            if d == 0:
+                addz("z_chunk_boundary", "unz", fb + b"\x00")
+                addz("z_chunk_boundary", "unz", fb + rng.randbytes(cd.CHUNK))
+                addz("z_chunk_boundary", "unz", fb[:-1])
+        big = zlib.compress(noise[:j * cd.CHUNK + 40], 6)
+        for cut in (j * cd.CHUNK - 1, j * cd.CHUNK, j * cd.CHUNK + 1):
+            addz("z_chunk_boundary", "unz", frame(noise[:j * cd.CHUNK + 40], big[:cut]))
+            hist["z_chunk_boundary:truncated_at=%d*16384%+d" % (j, cut - j * cd.CHUNK)] = 1
+    # (g) the 1.x beat-grid cap: 32768 markers accepted, 32769 rejected by the count check itself (the body is complete,
+    # so the size check cannot reject it first); 2 accepted, 1 rejected.
+    def beat_payload(n_markers):
+        body = b"".join(struct.pack("<dqii", 100.0 * i, 4 * i, 4 if i + 1 < n_markers else 0, 0) for i in range(n_markers))
+        return struct.pack(">dd", 44100.0, 1e7) + b"\x01" + _i64be(n_markers) + body + _i64be(0)
+    for n in ([32768, 32769] if tier == "quick" else [32767, 32768, 32769, 32770, 65536]) + [1, 2]:
+        add("grid_cap", "v1.beat", beat_payload(n))
+        hist["grid_cap:v1.beat count=%d (complete body)" % n] = 1
     # decz: framed blobs through every compressed decoder
     for k, p in valid[:40 if tier == "quick" else 300]:
         if k in cd.RAW_KINDS or len(p) > 2000:
